@@ -21,6 +21,11 @@ CHECKS = {
          "For 15 view configurations (memory/disk root and child, depth-3 views, encrypted, read-only, sub-path, cache root/child/depth-3) every path up to a segment bound over {name, jail, ., .., empty} (with and without leading '/'), plus random longer ones, is given to all 16 operations and to both arguments of the copy operations; after each call the outside of the view (walked through the underlying filespace, hashed host directory for disk, after Commit for caches) must be unchanged, no outside token may come back, no outside-only name may be listed and an escaping path may only be answered as its clamped inside resolution. Held on the enumerated paths and configurations.",
          "accepts both 'rejected' and 'resolved inside the root'; removing the view's own root through the view is not counted as reaching outside",
          "DESIGN.md §5 C03"),
+ "C05": ("fault_enumeration",
+         "runtime round-trip/secrecy/freshness oracles plus enumeration of every truncation length and single-byte corruption of the stored bytes; reference-model monitor for the name space",
+         "Random plaintexts and settings (both ciphers, memory and disk base, empty and random secret/salt, host binding, WriteFile and chunked Writer) are written and read back by a second instance through ReadFile and Reader with several buffer sizes; stored bytes are searched for plaintext windows, nonces must be unique run-wide, another secret or salt must give an error and zero bytes. For stored files up to 256 bytes every truncation and every single-byte corruption (3 masks), sampled for larger files, is read through both paths: error, zero bytes delivered, no panic, filespace still usable afterwards (a leaked lock deadlocks the child). Name-space histories run against the tree model. Held on the explored cases.",
+         "secrecy = absence of 16-byte plaintext windows (not a cryptographic claim); AES-GCM forgery probability ignored",
+         "DESIGN.md §5 C05"),
  "C17": ("exploration",
          "runtime oracle over bounded-exhaustive + random inputs (reference splitter / render-split round trip)",
          "ReadArguments is run on every byte string up to a length bound over the 9 significant bytes (no panic, bounded reads, exact expected result on the quote-free sub-language) and on scripts rendered from random argument lists by a reference quoting function; InjectArgs mapping compared with an independent expectation. Held on the enumerated/sampled inputs only.",
